@@ -321,3 +321,14 @@ package internal_planner
 //@ func (*LineFormatterPlanner).Process$2 [C09]
 //@   flag checks=-index,-assert
 //@   check handed-over-buffer-is-given-up: len(_entries) == 0 && (isnil(_entries) || !aliases(_entries, old(_entries)))
+
+// `| drop a, b="x"`: a label is removed only under a drop target of its own name, and a
+// target with a value removes it only when the label has that value (each target is
+// judged by its own matcher, not by another target's).
+//@ func (*DropPlanner).cutLabels [C09]
+//@   flag checks=-index,-assert
+//@   at map.delete a-label-is-dropped-only-under-its-own-target: i >= 0 && i < len(a.Labels) && a.Labels[i] == arg1 && (a.Values[i] == "" || v == a.Values[i])
+//@   loop 1:
+//@     modifies mapof(e.Labels)
+//@   loop 2:
+//@     modifies mapof(e.Labels)
